@@ -152,8 +152,8 @@ func runIsoRace(c Case, emit Emitter) {
 func runIsoRaceChild(c Case, emit Emitter) {
 	x := isoExtraOf(c)
 	names, progs := isoPrograms(c.Steps)
-	isoNoSync = true
 	for r := 0; r < x.Rounds; r++ {
+		isoNoSync = true // while the document goroutines run, the harness takes no lock
 		document.VerifResetGlobals()
 		docs := map[string]*isoDoc{}
 		for _, d := range names {
@@ -170,10 +170,8 @@ func runIsoRaceChild(c Case, emit Emitter) {
 			go func() {
 				defer wg.Done()
 				atomic.AddInt32(&ready, 1)
-				for i := 0; atomic.LoadInt32(&ready) < n; i++ {
-					if i > 1<<10 {
-						runtime.Gosched()
-					}
+				for atomic.LoadInt32(&ready) < n {
+					runtime.Gosched()
 				}
 				for _, op := range prog {
 					isoExec(st, op)
@@ -181,6 +179,7 @@ func runIsoRaceChild(c Case, emit Emitter) {
 			}()
 		}
 		wg.Wait()
+		isoNoSync = false
 		vs := map[string]interface{}{}
 		for _, d := range names {
 			vs[d] = isoView(docs[d])
